@@ -100,6 +100,16 @@ class T15(Translator2):
                 return tmpl.format(**{k: self.pure(v, scope) for k, v in env.items()}), flag
         if isinstance(node, ast.Constant) and isinstance(node.value, str):
             return json.dumps(node.value, ensure_ascii=False), ""
+        if isinstance(node, ast.ListComp) and self.r.ret != "{e}":
+            try:
+                return self.comprehension(node, scope, "list"), ""
+            except Untranslatable as e1:
+                if "hoisted" not in str(e1):
+                    raise
+                m = self.monadic_list_comprehension(node, scope)
+                if m is None:
+                    raise
+                return m, "bind"
         if isinstance(node, ast.JoinedStr):
             return "()", ""         # an f-string is only ever a message: the unit value, as `"..".format(..)`
         if isinstance(node, ast.Call):
@@ -186,7 +196,7 @@ class T15(Translator2):
             val = self.pure(src_node, scope)
             new = self.fresh(p_, sc)
             sc[p_] = new
-            lets.append("let %s := %s" % (new, val))
+            lets.append("  let %s := %s" % (new, val))       # same column as the body: a line break ends the `let`
         pure_mode = self.r.ret == "{e}"
         self._fn_stack.append(g)
         self._end_stack.append(None if pure_mode else ".ok ()")
@@ -214,10 +224,15 @@ class T15(Translator2):
             if isinstance(n, ast.Name) and isinstance(n.ctx, (ast.Store, ast.Del)):
                 stores[n.id] = stores.get(n.id, 0) + 1
         params = {x.arg for x in node.args.posonlyargs + node.args.args + node.args.kwonlyargs}
-        try:
-            rebound = set(self.assigned_names(node.body))
-        except Untranslatable:
-            return node
+        rebound = set()          # receivers of in-place statements (value model: the receiver is re-bound)
+        for st_ in ast.walk(node):
+            if isinstance(st_, ast.stmt):
+                for pat, recv, _t in self.r.stmt:
+                    env = {}
+                    if match(pat, st_, env):
+                        if isinstance(env.get(recv), ast.Name):
+                            rebound.add(env[recv].id)
+                        break
         alias = {}
         # an attribute that the function itself stores to (`self.attr = ...`) may be re-bound between the alias and its
         # use: Python's local would keep the old object, the substituted text would read the new one — no alias then
@@ -240,8 +255,11 @@ class T15(Translator2):
                 if (len(st.targets) == 1 and isinstance(st.targets[0], ast.Name) and isinstance(st.value, ast.Attribute)
                         and isinstance(root(st.value), ast.Name)):
                     x, r = st.targets[0].id, root(st.value).id
+                    r_ok = r not in stores or (stores.get(r) == 1 and r not in params and st in node.body and any(
+                        isinstance(b, ast.Assign) and len(b.targets) == 1 and isinstance(b.targets[0], ast.Name)
+                        and b.targets[0].id == r for b in node.body[:node.body.index(st)]))
                     if stores.get(x, 0) == 1 and x not in params and x not in alias and r not in rebound \
-                            and r not in stores and x != r and not (chain_attrs(st.value) & stored_attrs):
+                            and r_ok and x != r and not (chain_attrs(st.value) & stored_attrs):
                         alias[x] = st.value
                         return None
                 return self_.generic_visit(st)
@@ -278,6 +296,29 @@ class T15(Translator2):
             return Translator2.comprehension(self, node, scope, kind)
         finally:
             self._nohoist -= 1
+
+    def monadic_list_comprehension(self, node, scope):
+        """`[E for t in IT]` whose element E may raise: `List.mapM (fun it => … .ok E) IT` (stops at the first raise, as
+        the comprehension does); None when the comprehension has a filter or several generators"""
+        if len(node.generators) != 1 or node.generators[0].ifs or node.generators[0].is_async:
+            return None
+        g = node.generators[0]
+        it = self.pure(ast.Call(func=ast.Name(id="__iter__", ctx=ast.Load()), args=[g.iter], keywords=[]), scope)
+        item = self.fresh("it", scope)
+        sc = dict(scope)
+        sc["\0tmp" + item] = item
+        lines, sc = self.bind_target(g.target, item, sc)
+        saved_p, saved_n = self._pending, self._nohoist
+        self._pending, self._nohoist = [[]], 0
+        try:
+            elt = self.pure(node.elt, sc)
+            pend = self._pending.pop()
+        finally:
+            self._pending, self._nohoist = saved_p, saved_n
+        text = ".ok (%s)" % elt
+        for e, tmp in reversed(pend):
+            text = "(Except.bind %s fun %s => %s)" % (e, tmp, text)
+        return "(List.mapM (fun %s => %s; %s) %s)" % (item, "; ".join(lines), text, it)
 
     def loop(self, st, rest, scope, ind, ctx):
         st = _copy.copy(st)
@@ -734,6 +775,10 @@ class TLab(T15):
                 else:
                     parts.append(self.pure(e, scope))
             return "(" + " ++ ".join(parts) + ")" if parts else "[]", ""
+        if isinstance(node, ast.Tuple) and all(isinstance(e, ast.Constant) and isinstance(e.value, str) for e in node.elts) \
+                and len(node.elts) != 2:
+            # a tuple of label names (`closed_labels=("torso",)`, `()`) is only ever a collection to test membership in
+            return "([" + ", ".join(json.dumps(e.value, ensure_ascii=False) for e in node.elts) + "] : List String)", ""
         return T15.expr(self, node, scope)
 
 
@@ -789,6 +834,9 @@ def lab_rules(names, helpers):
         ("$g.from_vector($v)", "(objFromVector {g} {v})", "bind"),
         ("OrderedDict()", "ODict.empty"),
         ("OrderedDict($x)", "(ODict.ofPairs {x})"),
+        ("$d.items()", "(ODict.items {d})"),
+        ("$k in $c", "(List.contains {c} {k})"),
+        ("$k not in $c", "(!(List.contains {c} {k}))"),
         ("$d[$k]", "(ODict.get {d} {k})", "bind"),
     ]
     stmt = [
@@ -825,6 +873,12 @@ def lab_plan():
             g = getattr(inner, "__globals__", {}).get(c)
             if callable(g) and getattr(g, "__module__", "").startswith("menpo.landmark.labels") \
                     and not isinstance(g, type):
+                try:
+                    gn, _ = source_ast(g)
+                    if gn.args.args or gn.args.vararg or gn.args.kwarg or gn.args.kwonlyargs:
+                        continue        # a helper with parameters is inlined at its call sites (T15._inline)
+                except (Untranslatable, OSError, TypeError, SyntaxError):
+                    continue
                 helpers[c] = ("h" + c if c.startswith("_") else "h_" + c, g)
     order, seen = [], set()
 
